@@ -73,20 +73,33 @@ class Hp(object):
     return Mock("hp", {"Choice": choice, "Fixed": fixed})
 
 
-def hyper(repo, limit, layer_indexes=None):
+NOT_GIVEN = object()
+
+
+def hyper(repo, limit, layer_indexes=NOT_GIVEN):
+  """An AutoQKHyperModel as its own __init__ leaves it (limit adjustment,
+  normalisation of the options), for the given limit / layer_indexes."""
   aq = repo.module(AQ)
   c = aq.classes.get("AutoQKHyperModel")
   if c is None:
     raise AnalysisError("anchor-missing class AutoQKHyperModel")
-  o = Obj(c)
-  o.attrs.update({
-      "limit": limit, "groups": {}, "quantization_config": tagged_config(),
-      "layer_indexes": layer_indexes, "tune_filters": "none",
-      "tune_filters_exceptions": Mock("regex", {
-          "search": lambda pe, a, k: None}),
-      "custom_objects": {}, "activation_bits": 4, "transfer_weights": False,
-      "model": Mock("model", {}),
-  })
+  pe = PE(repo)
+  pe.opaque_ext = True
+  kw = dict(model=Mock("model", {}), metrics=[],
+            target=Mock("target", {"get_reference": lambda pe, a, k: 1}),
+            limit=limit, tune_filters="none", tune_filters_exceptions="^$",
+            quantization_config=tagged_config(), activation_bits=4)
+  if layer_indexes is not NOT_GIVEN:
+    kw["layer_indexes"] = layer_indexes
+  try:
+    o = pe.call(pe.lookup_global("AutoQKHyperModel", aq), [], kw)
+  except PyRaise as e:
+    raise AnalysisError("unsupported-construct AutoQKHyperModel.__init__ "
+                        "raises on the synthetic options: %s" % e)
+  # the regular expression object is replaced by a stand-in that never
+  # matches (tune_filters is "none")
+  o.attrs["tune_filters_exceptions"] = Mock("regex", {
+      "search": lambda pe, a, k: None})
   return aq, c, o
 
 
@@ -328,6 +341,43 @@ def rule_quantize_model(rep, repo):
   rep.check("d0" in qd and "c1" in qd, "R3", unit, "selected-layer-missing",
             "selected layers are missing from the quantization dictionary: "
             "%s" % sorted(qd), loc=loc)
+  # R3 other forms of the selection: none given (no restriction), a tuple,
+  # and the empty selection (nothing may be quantized)
+  LIMIT = {"Dense": [4, 4, 4], "Conv2D": [4, 4, 4],
+           "SeparableConv2D": [4, 4, 4, 4], "DepthwiseConv2D": [4, 4, 4],
+           "LSTM": [4, 4, 4, 4], "Activation": [4]}
+  in_limit = {"d0", "c1", "d2_not_in_indexes", "s4", "dw5", "l6", "a7"}
+  for li, label, want in (
+      (NOT_GIVEN, "not given", in_limit),
+      (None, "None", in_limit),
+      ((0, 1), "(0, 1)", {"d0", "c1"}),
+      ([2], "[2]", {"d2_not_in_indexes"}),
+      ([], "[] (empty list)", set()),
+      ((), "() (empty tuple)", set())):
+    _, _, o2 = hyper(repo, dict(LIMIT), layer_indexes=li)
+    cap2 = {}
+
+    def mq2(pe, a, k, cap2=cap2):
+      cap2["q_dict"] = a[1]
+      return Mock("qmodel", {})
+    pe2 = PE(repo, module_overrides={AQ: {"clone_model": clone,
+                                          "model_quantize": mq2}})
+    hp2 = Hp()
+    try:
+      pe2.call_func(Func(fn, aq, [], "quantize_model", o2, c), [hp2.mock()],
+                    {})
+    except PyRaise as e:
+      rep.fail("R3", unit, "quantize_model-raises:layer_indexes=" + label,
+               "quantize_model raises %s with layer_indexes %s" % (e, label),
+               loc=loc)
+      continue
+    got = {k for k in (cap2.get("q_dict") or {})
+           if k in in_limit or k == "c3_class_not_in_limit"}
+    rep.check(got == want, "R3", unit,
+              "layer_indexes-selection:" + label,
+              "with layer_indexes %s the layers handed to model_quantize "
+              "are %s, expected %s" % (label, sorted(got), sorted(want)),
+              loc=loc)
   # R5 key agreement with model_quantize
   rk = reader_keys(repo)
   if len(rk) < 8:
